@@ -308,6 +308,22 @@ def work_containers(chunk):
 
                     org = BaseOrganization(team_list=[BaseTeam("tm1", ID="tm1", worker_list=[w1]), BaseTeam("tm2", ID="tm2", worker_list=[w2])],
                                            workplace_list=[BaseWorkplace("wp", ID="wp", facility_list=[f1])])
+                    if margin == 0.5:
+                        # hierarchy: the second team reports to a division and the workplace belongs to a yard that are NOT registered in the organization;
+                        # the first team is the parent of a registered sub-team without workers
+                        org.team_list[1].set_parent_team(BaseTeam("division", ID="division"))
+                        org.workplace_list[0].set_parent_workplace(BaseWorkplace("yard", ID="yard"))
+                        sub = BaseTeam("tm1a", ID="tm1a")
+                        sub.set_parent_team(org.team_list[0])
+                        org.team_list.append(sub)
+                    if margin == 2.0:
+                        # a part that belongs to two registered assemblies (a shared bracket)
+                        c2, c3 = BaseComponent("c2", ID="c2"), BaseComponent("c3", ID="c3")
+                        c2.state_record_list = [BaseComponentState(int(x)) for x in reversed(a)]
+                        c3.state_record_list = [BaseComponentState(int(x)) for x in a]
+                        c1.append_child_component(c2)
+                        c3.append_child_component(c2)
+                        pr = BaseProduct([c1, c2, c3])
                     col.evaluations += 1
                     col.checks["c19.container-rows"] += 1
                     key = ("container", tuple(int(x) for x in a), tuple(int(x) for x in b), margin, str(unit), auto2)
@@ -321,7 +337,9 @@ def work_containers(chunk):
                         got_wf = wf.create_data_for_gantt_plotly(INIT, unit, finish_margin=margin, view_ready=True)
                         exp_wf = t1.create_data_for_gantt_plotly(INIT, unit, finish_margin=margin, view_ready=True) + t2.create_data_for_gantt_plotly(INIT, unit, finish_margin=margin, view_ready=True)
                         got_pr = pr.create_data_for_gantt_plotly(INIT, unit, finish_margin=margin, view_ready=True)
-                        exp_pr = c1.create_data_for_gantt_plotly(INIT, unit, finish_margin=margin, view_ready=True)
+                        exp_pr = []
+                        for c_ in pr.component_list:
+                            exp_pr += c_.create_data_for_gantt_plotly(INIT, unit, finish_margin=margin, view_ready=True)
                         got_org = org.create_data_for_gantt_plotly(INIT, unit, finish_margin=margin, view_ready=True, view_absence=True)
                         exp_org = []
                         for tm in org.team_list:
